@@ -6,9 +6,12 @@ from .solve import discharge, hyps_consistent
 
 def main():
     mod = importlib.import_module(sys.argv[1])
-    keys = sys.argv[2:] or list(mod.CONTRACTS)
+    keys = [a for a in sys.argv[2:] if not a.startswith('-')] or list(mod.CONTRACTS)
     src = Source()
-    ex = Executor(src, mod.CONTRACTS, getattr(mod, 'MODELS', {}), {})
+    from . import registry
+    reg = registry.load()
+    ex = Executor(src, reg.contracts, reg.models, reg.spec_funcs(src))
+    ex.opq_model_table = reg.opq_models
     t0 = time.time(); tot = bad = 0
     for key in keys:
         c = mod.CONTRACTS[key]
